@@ -42,16 +42,33 @@ import (
 //	q1/h   the QController's RunHook (error / panic after `dur` ns of run time, ok = returns nil)
 //	t1     a pkg/task task started through task.Runner (error / panic after `dur`, ok = returns nil)
 //
+// (`om s=<stream> pat=<e|p|w…> lo=<list> hi=<list>` is a whole chain of failing entries on one
+// line — error / panic / errw, run time 0 — taken all or nothing.)
 // All script lines come before `start`; each failing entry carries the backoff window
 // lo/hi (ns) the model assigns to it (the Lean driver re-derives it: `bounds-differ`
-// otherwise). Timeline ops (`write`, `advance`, `watcherr`, `cancel`, `converge`, `end`)
-// print, per stream, the invocations that happened during the op:
+// otherwise). Timeline ops (`write`, `advance`, `watcherr`, `cancel`, `cancelerr`, `converge`,
+// `end`) print, per stream, the invocations that happened during the op:
 // `<stream>=<j>:<class>:<obs>[+...]` with class first | touch (woken by an input event) |
 // in (restarted by the backoff timer inside the window of the previous failure) | early |
 // late, and obs the input values the invocation read. The randomised backoff value is
 // never printed. The Lean model tracks restart times as intervals; a stream whose state
 // cannot be determined at an op instant is answered `*` from then on (still counted in
 // `viol`, the number of early/late restarts, which must be 0).
+//
+// `cancelerr mode=mid|race` is a watch failure racing with cancellation: the proxy hands the
+// runtime the batch [Created(res), Errored]; processing `res` (its Metadata() is called by
+// processEvents) cancels the context given to Run — mode=mid then lets every goroutine settle
+// (synctest.Wait: Run has observed the cancellation and waits for its goroutines) before the
+// Errored event of the same batch is looked at; mode=race does not wait, so Run may see either
+// first (its return value is printed but predicted `*`). The op waits for Run with a virtual
+// timeout and prints `run=returned` or `run=hung`; a hang also shows as `ret=running` and, on
+// the `end` line, as `leak=1` (the bubble is left with the stuck goroutines still there).
+// Every other wait for Run (`cancel`, `end`) is bounded in the same way.
+//
+// A "marathon" script makes ONE stream fail 40-55 times in a row (more than 15 virtual minutes of
+// continuous failure — the library's default MaxElapsedTime, after which an exponential backoff
+// that was not told otherwise answers Stop = -1ns); every restart is classified against its
+// window as usual, so a retry loop without backoff shows as `early` restarts and viol>0.
 //
 // The state handed to the runtime is a recording proxy: it forwards everything, remembers
 // the runtime's WatchKindAggregated channel (to inject an Errored event on `watcherr`) and
@@ -472,6 +489,44 @@ func (p *fltProxy) inject() bool {
 	}
 }
 
+// fltHookRes is a resource whose first Metadata() call runs a hook: processEvents calls it when it
+// gets to the event that carries the resource, i.e. the hook runs on the runtime's own
+// deduplicateWatchEvents goroutine, in the middle of a batch.
+type fltHookRes struct {
+	resource.Resource
+
+	hook func()
+	once sync.Once
+}
+
+func (r *fltHookRes) Metadata() *resource.Metadata {
+	r.once.Do(r.hook)
+
+	return r.Resource.Metadata()
+}
+
+// injectMid sends the batch [Created(res), Errored] on the runtime's aggregated watch channel;
+// `hook` runs when the runtime starts processing the first event of the batch.
+func (p *fltProxy) injectMid(hook func()) bool {
+	p.mu.Lock()
+	defer p.mu.Unlock()
+
+	if len(p.chans) == 0 {
+		return false
+	}
+
+	res := &fltHookRes{Resource: NewTRes("n1", "In", "a"), hook: hook}
+
+	select {
+	case p.chans[0] <- []state.Event{{Type: state.Created, Resource: res}, {Type: state.Errored, Error: errFltInjected}}:
+		p.injects++
+
+		return true
+	default:
+		return false
+	}
+}
+
 func (p *fltProxy) watchesClosed() bool {
 	p.mu.Lock()
 	defer p.mu.Unlock()
@@ -550,8 +605,40 @@ type fltInst struct {
 	runner  *task.Runner[struct{}, fltTaskSpec]
 	started bool
 	stopped bool
+	hung    bool // Run did not return within fltRunBound after it had to
 	ret     error
 	retSet  bool
+}
+
+// fltRunBound is the (virtual) time Run is given to return once its context is cancelled; the
+// real code needs none.
+const fltRunBound = time.Minute
+
+// await waits for Run to return, at most fltRunBound of virtual time.
+func (in *fltInst) await() string {
+	switch {
+	case !in.started:
+		return "notstarted"
+	case in.retSet:
+		return "returned"
+	case in.hung:
+		return "hung"
+	}
+
+	tm := time.NewTimer(fltRunBound)
+	defer tm.Stop()
+
+	select {
+	case err := <-in.done:
+		in.ret, in.retSet = err, true
+		in.w.returned.Store(true)
+
+		return "returned"
+	case <-tm.C:
+		in.hung = true
+
+		return "hung"
+	}
 }
 
 func fltNewInst(cfg fltCfg) *fltInst {
@@ -665,7 +752,7 @@ func (in *fltInst) retStr() string {
 	}
 }
 
-// stop cancels the context, waits for Run to return and stops the task runner.
+// stop cancels the context, waits for Run to return (bounded) and stops the task runner.
 func (in *fltInst) stop() {
 	if in.stopped {
 		return
@@ -674,10 +761,7 @@ func (in *fltInst) stop() {
 	in.stopped = true
 	in.cancel()
 
-	if in.started && !in.retSet {
-		in.ret, in.retSet = <-in.done, true
-		in.w.returned.Store(true)
-	}
+	in.await()
 
 	if in.runner != nil {
 		in.runner.Stop()
@@ -774,6 +858,44 @@ func fltScriptCheck(s *fltStream, a Args) (fltEntry, string) {
 	fmt.Sscan(a["lo"], &e.lo)
 	fmt.Sscan(a["hi"], &e.hi)
 
+	return fltScriptEntry(s, e)
+}
+
+// fltMarathonCheck validates a marathon line `om s=<stream> pat=<e|p|w…> lo=<list> hi=<list>`: one
+// failing entry per letter, each with its window, all or nothing.
+func fltMarathonCheck(s *fltStream, a Args) ([]fltEntry, string) {
+	pat, los, his := a["pat"], a.List("lo"), a.List("hi")
+	if pat == "" || len(los) != len(pat) || len(his) != len(pat) {
+		return nil, "bad-marathon"
+	}
+
+	saved := *s
+
+	var entries []fltEntry
+
+	for i, ch := range pat {
+		e := fltEntry{o: map[rune]string{'e': "error", 'p': "panic", 'w': "errw"}[ch]}
+		if e.o == "" {
+			e.o = "?"
+		}
+
+		fmt.Sscan(los[i], &e.lo)
+		fmt.Sscan(his[i], &e.hi)
+
+		e, verdict := fltScriptEntry(s, e)
+		if verdict != "script" {
+			*s = saved
+
+			return nil, verdict
+		}
+
+		entries = append(entries, e)
+	}
+
+	return entries, "script"
+}
+
+func fltScriptEntry(s *fltStream, e fltEntry) (fltEntry, string) {
 	valid := map[byte]string{'r': "ok okn error panic errw finish canceled", 'q': "ok error panic errw", 'm': "ok error panic", 'h': "ok error panic", 't': "ok error panic"}
 	if !strings.Contains(" "+valid[s.kind]+" ", " "+e.o+" ") {
 		return e, "bad-outcome"
@@ -897,6 +1019,24 @@ func execFaults(t *testing.T, c Case, emit func(string)) {
 
 							out = verdict
 						}
+					case "om":
+						s := w.streams[a["s"]]
+
+						switch {
+						case s == nil:
+							out = "no-stream"
+						case in.started:
+							out = "script-late"
+						default:
+							entries, verdict := fltMarathonCheck(s, a)
+							if verdict == "script" {
+								w.mu.Lock()
+								s.queue = append(s.queue, entries...)
+								w.mu.Unlock()
+							}
+
+							out = verdict
+						}
 					case "start":
 						if in.started {
 							out = "already"
@@ -949,6 +1089,36 @@ func execFaults(t *testing.T, c Case, emit func(string)) {
 					case "cancel":
 						in.stop()
 						out = "cancel ret=" + in.retStr() + " " + w.tokens()
+					case "cancelerr":
+						in.poll()
+
+						if !in.started || in.stopped || in.retSet {
+							// nothing left to race with: a plain cancellation
+							in.stop()
+							out = fmt.Sprintf("cancelerr run=%s ret=%s %s", in.await(), in.retStr(), w.tokens())
+
+							break
+						}
+
+						race := a["mode"] == "race"
+
+						if !in.proxy.injectMid(func() {
+							// runs on the runtime's event goroutine, between the two events of the batch
+							in.cancel()
+
+							if !race {
+								synctest.Wait() // Run has observed the cancellation and is waiting for its goroutines
+							}
+						}) {
+							out = "noinject"
+
+							break
+						}
+
+						run := in.await()
+
+						in.stop()
+						out = fmt.Sprintf("cancelerr run=%s ret=%s %s", run, in.retStr(), w.tokens())
 					case "converge":
 						w.mu.Lock()
 						w.flushed = true
@@ -1141,15 +1311,20 @@ func (*fltEngine) Cases(thorough bool) int {
 }
 
 func (*fltEngine) Rule() string {
-	return "real runtime under synctest with 0-3 probe Controllers, an optional probe QController (2 primary keys, a mapped input, optional run hook, concurrency 1-2) and an optional pkg/task task, every invocation's outcome scripted (ok/okn/error/panic/errw, run durations for hook and task); timeline of input writes and clock advances at instants before, inside and after the restart windows; ending in convergence-vs-fault-free-twin, an injected watch Errored event, or cancellation at a random instant; each case in a child process; non-trivial = at least two streams invoked, a timer-driven restart inside its window, an input write that woke one stream while another stream's last scripted outcome was a failure (it is backing off), and one of converge/watcherr/cancel; distinct by hash of the op lines"
+	return "real runtime under synctest with 0-3 probe Controllers, an optional probe QController (2 primary keys, a mapped input, optional run hook, concurrency 1-2) and an optional pkg/task task, every invocation's outcome scripted (ok/okn/error/panic/errw, run durations for hook and task); timeline of input writes and clock advances at instants before, inside and after the restart windows; about one case in ten with a marathon stream (40-55 consecutive failures of one controller / queue item / mapped input / hook / task, i.e. more than 15 virtual minutes of continuous failure, every restart classified against its window); ending in convergence-vs-fault-free-twin, an injected watch Errored event, cancellation at a random instant, or a watch failure racing with cancellation (cancelerr: the context is cancelled while the batch that carries the Errored event is being processed, with and without letting Run observe the cancellation first; Run must return within a virtual minute: run=returned/hung); each case in a child process; non-trivial = at least two streams invoked, a timer-driven restart inside its window, an input write that woke one stream while another stream's last scripted outcome was a failure (it is backing off), and one of converge/watcherr/cancel/cancelerr; distinct by hash of the op lines"
 }
 
 func (*fltEngine) NonTrivial(c Case, out []string) bool {
 	scripts := map[string][]string{}
 
 	for _, line := range c.Ops {
-		if op, a := ParseLine(line); op == "o" {
+		switch op, a := ParseLine(line); op {
+		case "o":
 			scripts[a["s"]] = append(scripts[a["s"]], a["o"])
+		case "om":
+			for range a["pat"] {
+				scripts[a["s"]] = append(scripts[a["s"]], "error")
+			}
 		}
 	}
 
@@ -1163,7 +1338,7 @@ func (*fltEngine) NonTrivial(c Case, out []string) bool {
 		}
 
 		op := opName(c.Ops[i])
-		if op == "converge" || op == "watcherr" || op == "cancel" {
+		if op == "converge" || op == "watcherr" || op == "cancel" || op == "cancelerr" {
 			ending = true
 		}
 
@@ -1213,6 +1388,38 @@ func fltFail(r *Rand) string {
 	default:
 		return "errw"
 	}
+}
+
+// fltMarathon: the script line that makes one stream fail n times in a row, and the time by which
+// the last of these failures has certainly been restarted (sum of the upper window bounds).
+func fltMarathon(r *Rand, name string, n int) ([]string, int64) {
+	kind := fltKind(name)
+
+	var (
+		pat      []byte
+		los, his []string
+		total    int64
+	)
+
+	for j := 0; j < n; j++ {
+		o := byte('e')
+
+		switch {
+		case r.Chance(1, 5):
+			o = 'p'
+		case (kind == 'r' || kind == 'q') && r.Chance(1, 6):
+			o = 'w'
+		}
+
+		lo, hi := goBounds(j)
+		total += hi
+		pat = append(pat, o)
+		los, his = append(los, fmt.Sprint(lo)), append(his, fmt.Sprint(hi))
+	}
+
+	// ONE line, so that the shrinker keeps the chain whole: with 40 failures or more even the shortest draw of every
+	// interval (64 s + 28 x 30 s) is past the 15 minutes
+	return []string{fmt.Sprintf("om s=%s pat=%s lo=%s hi=%s", name, pat, strings.Join(los, ","), strings.Join(his, ","))}, total + int64(time.Second)
 }
 
 // genScript produces the script lines of one stream (with the windows of the schedule).
@@ -1302,8 +1509,23 @@ func (e *fltEngine) Gen(r *Rand, thorough bool, idx int) Case {
 
 	c := Case{Header: fmt.Sprintf("# engine=faults nr=%d q=%d conc=%d hook=%d task=%d case=%d", cfg.nr, b(cfg.q), cfg.conc, b(cfg.hook), b(cfg.hasTask), idx)}
 
+	// a marathon: one stream fails 40-55 times in a row
+	marathon, chain := "", int64(0)
+	if r.Chance(1, 10) {
+		marathon = Pick(r, cfg.streamNames())
+	}
+
 	var scripts [][]string
 	for _, n := range cfg.streamNames() {
+		if n == marathon {
+			var lines []string
+
+			lines, chain = fltMarathon(r, n, 40+r.Intn(16))
+			scripts = append(scripts, lines)
+
+			continue
+		}
+
 		scripts = append(scripts, fltGenScript(r, n, thorough))
 	}
 
@@ -1346,7 +1568,7 @@ func (e *fltEngine) Gen(r *Rand, thorough bool, idx int) Case {
 		case x < 4: // before any first restart window (>= 250 ms)
 			d = 1 + int64(r.Intn(249_000_000))
 		case x < 8: // beyond every pending restart chain
-			d = int64(fltSettle)
+			d = max(int64(fltSettle), chain)
 		default: // anywhere, log-uniform 1 ms .. 130 s
 			d = int64(1_000_000) << r.Intn(17)
 			d += int64(r.Intn(int(min(d, 1<<30))))
@@ -1360,6 +1582,17 @@ func (e *fltEngine) Gen(r *Rand, thorough bool, idx int) Case {
 	}
 
 	c.Ops = append(c.Ops, "start")
+
+	if marathon != "" {
+		// get the marathon stream going (a queue item / mapped input needs its input to exist) and let the whole chain happen
+		switch marathon {
+		case "q1/a", "q1/b", "q1/m":
+			c.Ops = append(c.Ops, fmt.Sprintf("write id=%s v=%d", strings.TrimPrefix(marathon, "q1/"), v))
+			v++
+		}
+
+		c.Ops = append(c.Ops, fmt.Sprintf("advance d=%d", chain))
+	}
 
 	steps := 5 + r.Intn(10)
 	if thorough {
@@ -1384,7 +1617,18 @@ func (e *fltEngine) Gen(r *Rand, thorough bool, idx int) Case {
 		}
 	}
 
-	switch x := r.Intn(20); {
+	switch x := r.Intn(23); {
+	case x >= 20: // a watch failure racing with cancellation, at a random virtual instant
+		d := int64(1_000_000) << r.Intn(18)
+		d += int64(r.Intn(int(min(d, 1<<30))))
+		mode := "mid"
+
+		if x == 22 {
+			mode = "race"
+		}
+
+		c.Ops = append(c.Ops, fmt.Sprintf("advance d=%d", d), "cancelerr mode="+mode)
+		tail()
 	case x < 11:
 		c.Ops = append(c.Ops, fmt.Sprintf("converge v=%d", v+100))
 	case x < 14:
@@ -1421,7 +1665,53 @@ func (*fltEngine) Corpus(bool) []Case {
 
 	long = append(long, ln("r1", "ok", 0, -1), ln("r1", "panic", 0, 0), "start", "advance d=2000000000000", "write id=a v=1", "advance d=100000000", "write id=a v=2", "advance d=2000000000000", "converge v=50", "end")
 
+	// more than 15 minutes of continuous failure of one stream (48 failures: at least 64 s + 36 x 30 s)
+	marathon := func(s string, pre ...string) []string {
+		var (
+			ops   []string
+			total int64
+		)
+
+		var (
+			pat      []byte
+			los, his []string
+		)
+
+		for i := 0; i < 48; i++ {
+			lo, hi := w(i)
+			total += hi
+			pat = append(pat, "eep"[i%3])
+			los, his = append(los, fmt.Sprint(lo)), append(his, fmt.Sprint(hi))
+		}
+
+		ops = append(ops, fmt.Sprintf("om s=%s pat=%s lo=%s hi=%s", s, pat, strings.Join(los, ","), strings.Join(his, ",")))
+		ops = append(ops, pre...)
+		ops = append(ops, "start", fmt.Sprintf("advance d=%d", total+1_000_000_000), "write id=a v=7", "advance d=100000000", "write id=m v=8",
+			fmt.Sprintf("advance d=%d", total+1_000_000_000), "converge v=50", "end")
+
+		return ops
+	}
+
 	return []Case{
+		{Header: "# engine=faults nr=1 q=1 conc=1 hook=0 task=0 case=corpus-marathon-item", Ops: marathon("q1/a", "write id=a v=1", "write id=b v=2")},
+		{Header: "# engine=faults nr=1 q=1 conc=2 hook=0 task=0 case=corpus-marathon-map", Ops: marathon("q1/m", "write id=m v=1")},
+		{Header: "# engine=faults nr=2 q=0 conc=1 hook=0 task=0 case=corpus-marathon-controller", Ops: marathon("r2")},
+		{Header: "# engine=faults nr=0 q=1 conc=1 hook=1 task=0 case=corpus-marathon-hook", Ops: marathon("q1/h")},
+		{Header: "# engine=faults nr=1 q=0 conc=1 hook=0 task=1 case=corpus-marathon-task", Ops: marathon("t1")},
+		{Header: "# engine=faults nr=2 q=1 conc=1 hook=1 task=1 case=corpus-cancelerr-mid", Ops: []string{
+			ln("r1", "error", 0, 0), ln("r1", "error", 0, 1), ln("q1/a", "panic", 0, 0), ln("q1/h", "error", 0, 0), ln("t1", "error", 0, 0),
+			"start", "write id=a v=1", "advance d=100000000", "cancelerr mode=mid", "write id=a v=3", "advance d=2000000000000", "write id=b v=4", "end",
+		}},
+		{Header: "# engine=faults nr=1 q=0 conc=1 hook=0 task=0 case=corpus-cancelerr-mid-idle", Ops: []string{
+			"start", "write id=a v=1", "cancelerr mode=mid", "end",
+		}},
+		{Header: "# engine=faults nr=1 q=1 conc=2 hook=0 task=0 case=corpus-cancelerr-race", Ops: []string{
+			ln("r1", "panic", 0, 0), ln("q1/b", "error", 0, 0),
+			"start", "write id=b v=1", "advance d=300000000", "cancelerr mode=race", "write id=a v=3", "advance d=2000000000000", "end",
+		}},
+		{Header: "# engine=faults nr=1 q=0 conc=1 hook=0 task=0 case=corpus-cancelerr-after-watcherr", Ops: []string{
+			"start", "write id=a v=1", "watcherr", "cancelerr mode=mid", "cancelerr mode=race", "end",
+		}},
 		{Header: "# engine=faults nr=1 q=0 conc=1 hook=0 task=0 case=corpus-long-streak", Ops: long},
 		{Header: "# engine=faults nr=2 q=0 conc=1 hook=0 task=0 case=corpus-okn-growth", Ops: []string{
 			ln("r1", "error", 0, 0), ln("r1", "okn", 0, -1), ln("r1", "panic", 0, 1), ln("r1", "ok", 0, -1), ln("r1", "errw", 0, 0),
